@@ -7,6 +7,7 @@ package main
 // implementation.  oracle returns ok=false when it has no opinion on a case.
 
 import (
+	"fmt"
 	"math/big"
 )
 
@@ -911,9 +912,247 @@ func repeatSpec(x V, nv V) V {
 
 func isSeq(v V) bool { return v.T == "str" || v.T == "bytes" || v.T == "list" || v.T == "tuple" }
 
+// ---- ordering, sorted, min, max (spec.md "Comparisons", "sorted", "min", "max")
+
+var errUnordered = fmt.Errorf("values are not ordered")
+
+// numeric value of an int or float operand
+func numOf(v V) (*big.Float, bool) {
+	switch v.T {
+	case "int":
+		return new(big.Float).SetInt(v.big()), true
+	case "float":
+		return big.NewFloat(v.float()), true
+	}
+	return nil, false
+}
+
+// valEqNum: equality as the language defines it (1 == 1.0)
+func valEqNum(a, b V) bool {
+	if x, ok := numOf(a); ok {
+		if y, ok := numOf(b); ok {
+			return x.Cmp(y) == 0
+		}
+		return false
+	}
+	if a.T != b.T {
+		return false
+	}
+	if a.T == "list" || a.T == "tuple" {
+		if len(a.L) != len(b.L) {
+			return false
+		}
+		for i := range a.L {
+			if !valEqNum(a.L[i], b.L[i]) {
+				return false
+			}
+		}
+		return true
+	}
+	return valEq(a, b)
+}
+
+// cmpV: -1, 0, +1, or an error when the two values are not ordered
+func cmpV(a, b V) (int, error) {
+	if x, ok := numOf(a); ok {
+		if y, ok := numOf(b); ok {
+			return x.Cmp(y), nil
+		}
+		return 0, errUnordered
+	}
+	if a.T != b.T {
+		return 0, errUnordered
+	}
+	switch a.T {
+	case "str", "bytes":
+		x, y := a.str(), b.str()
+		for i := 0; i < len(x) && i < len(y); i++ {
+			if x[i] != y[i] {
+				if x[i] < y[i] {
+					return -1, nil
+				}
+				return 1, nil
+			}
+		}
+		return sign(len(x) - len(y)), nil
+	case "bool":
+		return sign(b2i(a.B) - b2i(b.B)), nil
+	case "list", "tuple":
+		for i := 0; i < len(a.L) && i < len(b.L); i++ {
+			if !valEqNum(a.L[i], b.L[i]) {
+				return cmpV(a.L[i], b.L[i])
+			}
+		}
+		return sign(len(a.L) - len(b.L)), nil
+	}
+	return 0, errUnordered // None, ranges ...
+}
+
+func sign(x int) int {
+	if x < 0 {
+		return -1
+	}
+	if x > 0 {
+		return 1
+	}
+	return 0
+}
+func b2i(b bool) int {
+	if b {
+		return 1
+	}
+	return 0
+}
+
+// keyOf applies the named key function of the harness prelude.
+func keyOf(name string, v V) (V, error) {
+	bad := fmt.Errorf("key function fails")
+	switch name {
+	case "", "ident":
+		return v, nil
+	case "len":
+		if n := seqLen(v); n >= 0 && v.T != "range" {
+			return vInt(int64(n)), nil
+		}
+		return V{}, bad
+	case "zero":
+		return vInt(0), nil
+	case "mod3":
+		if v.T == "int" {
+			m := new(big.Int).Mod(v.big(), big.NewInt(3)) // Euclidean = floored for a positive modulus
+			return vBig(m), nil
+		}
+		return V{}, bad
+	case "neg":
+		if v.T == "int" {
+			return vBig(new(big.Int).Neg(v.big())), nil
+		}
+		if v.T == "float" {
+			return vF(-v.float()), nil
+		}
+		return V{}, bad
+	case "first":
+		if (v.T == "list" || v.T == "tuple") && len(v.L) > 0 {
+			return v.L[0], nil
+		}
+		if (v.T == "str" || v.T == "bytes") && len(v.S) > 0 {
+			return V{T: v.T, S: v.S[:2]}, nil
+		}
+		return V{}, bad
+	case "lower":
+		if v.T == "str" {
+			b := []byte(v.str())
+			for i, c := range b {
+				b[i] = downc(c)
+			}
+			return vStr(string(b)), nil
+		}
+		return V{}, bad
+	case "int":
+		switch v.T {
+		case "int":
+			return v, nil
+		case "bool":
+			return vInt(int64(b2i(v.B))), nil
+		case "float":
+			f := v.float()
+			if f == float64(int64(f)) {
+				return vInt(int64(f)), nil
+			}
+			if f > 0 {
+				return vInt(int64(f)), nil // truncation toward zero
+			}
+			return vInt(-int64(-f)), nil
+		}
+		return V{}, bad
+	}
+	return V{}, bad
+}
+
+// sortSpec: sorted / min / max.  sorted is the stable arrangement: element i
+// precedes element j iff key_i < key_j (key_i > key_j when reversed), or the keys
+// tie and i < j.  min / max return the first element whose key is extremal.
+func sortSpec(c *Case) (V, bool) {
+	var elems []V
+	if c.Name == "sorted" {
+		if len(c.Args) != 1 {
+			return errV, true
+		}
+		el, ok := iterElems(c.Args[0])
+		if !ok {
+			return errV, true
+		}
+		elems = el
+	} else {
+		if len(c.Args) == 0 {
+			return errV, true
+		}
+		if len(c.Args) == 1 {
+			el, ok := iterElems(c.Args[0])
+			if !ok {
+				return errV, true
+			}
+			elems = el
+		} else {
+			elems = c.Args
+		}
+		if c.Rev != "" {
+			return errV, true // min / max take no reverse= argument
+		}
+		if len(elems) == 0 {
+			return errV, true
+		}
+	}
+	keys := make([]V, len(elems))
+	for i, e := range elems {
+		k, err := keyOf(c.Key, e)
+		if err != nil {
+			return errV, true
+		}
+		keys[i] = k
+	}
+	// every pair must be ordered (a comparison sort cannot avoid comparing two classes of values)
+	for i := range keys {
+		for j := i + 1; j < len(keys); j++ {
+			if _, err := cmpV(keys[i], keys[j]); err != nil {
+				return errV, true
+			}
+		}
+	}
+	rev := c.Rev == "true"
+	if c.Name == "sorted" {
+		out := make([]V, len(elems))
+		for i := range elems {
+			rank := 0
+			for j := range elems {
+				k, _ := cmpV(keys[j], keys[i])
+				if rev {
+					k = -k
+				}
+				if k < 0 || (k == 0 && j < i) {
+					rank++
+				}
+			}
+			out[rank] = elems[i]
+		}
+		return V{T: "list", L: out}, true
+	}
+	best := 0
+	for i := 1; i < len(elems); i++ {
+		k, _ := cmpV(keys[i], keys[best])
+		if (c.Name == "min" && k < 0) || (c.Name == "max" && k > 0) {
+			best = i
+		}
+	}
+	return elems[best], true
+}
+
 // oracle: expected result, expected receiver afterwards (lists), ok.
 func oracle(c *Case) (V, *V, bool) {
 	switch c.Op {
+	case "sort":
+		v, ok := sortSpec(c)
+		return v, nil, ok
 	case "slice":
 		idx, ok := sliceIndices(seqLen(*c.X), c.Args[0], c.Args[1], c.Args[2])
 		if !ok {
@@ -973,4 +1212,23 @@ func oracle(c *Case) (V, *V, bool) {
 		return errV, nil, true
 	}
 	return errV, nil, false
+}
+
+// sortIntKeys reports whether every key of a sort case is an int (the fragment modelled in Coq).
+func sortIntKeys(c *Case) bool {
+	var elems []V
+	if len(c.Args) == 1 && (c.Args[0].T == "list" || c.Args[0].T == "tuple") {
+		elems = c.Args[0].L
+	} else if c.Name != "sorted" && len(c.Args) >= 2 {
+		elems = c.Args
+	} else {
+		return false
+	}
+	for _, e := range elems {
+		k, err := keyOf(c.Key, e)
+		if err != nil || k.T != "int" {
+			return false
+		}
+	}
+	return true
 }
